@@ -497,8 +497,8 @@ func TestVerifC11(t *testing.T) {
 		_, need := llm.PredictServerFit(discover.GpuInfoList{big}, vModelGGML(t), nil, nil, o, 4)
 		rep.Set("tiny_model_vram_need_bytes", need)
 	}
-	n := cfg.N(300, 6000)
-	nseq := cfg.N(300, 6000)
+	n := cfg.N(300, 24000)
+	nseq := cfg.N(300, 24000)
 	replayIdx, replaySeq := -1, false
 	if cfg.Replay != "" {
 		var rc struct {
